@@ -307,6 +307,9 @@ func (e *Evaluator) evalExpr(expr Expr) (*Cell, error) {
 				switch body := matchCase.Body.(type) {
 				case *StatementExpr:
 					val, err := e.evalExpr(body.Expr)
+					if popErr := e.popFrame(); popErr != nil {
+						return nil, popErr
+					}
 					if err != nil {
 						return nil, err
 					}
@@ -314,6 +317,7 @@ func (e *Evaluator) evalExpr(expr Expr) (*Cell, error) {
 				default:
 					err := e.evalStatement(body)
 					if err != nil {
+						e.popFrame()
 						return nil, err
 					}
 				}
@@ -434,6 +438,7 @@ func (e *Evaluator) callFunction(exp *ExprCall, fn *Cell, args []*Value) (*Cell,
 		if err == errReturn {
 			retVal = e.returnVal
 		} else if err != nil {
+			e.popFrame()
 			return nil, err
 		} else {
 			retVal = nil
